@@ -66,11 +66,13 @@ func pubOf(id int) []byte {
 var sigCache = map[string][]byte{}
 
 // signature over data by key id; ok=false gives a signature that must not verify.
-func sigFor(id int, data []byte, ok bool, variant int) []byte {
+// occ numbers repeated votes of one signer: each repetition carries its own (valid, different)
+// ECDSA signature, as a real duplicate would.
+func sigFor(id int, data []byte, ok bool, variant int, occ int) []byte {
 	if id >= malformedBase {
 		return make([]byte, 64)
 	}
-	k := fmt.Sprintf("%d/%x", id, data)
+	k := fmt.Sprintf("%d/%x/%d", id, data, occ)
 	s, have := sigCache[k]
 	if !have {
 		var err error
@@ -232,10 +234,11 @@ func exec(t []string) string {
 		if sponsor >= malformedBase && ssig {
 			panic("harness: malformed sponsor cannot have a valid signature")
 		}
-		c.Proposal.Sign = sigFor(sponsor, c.Proposal.Data(), ssig, len(votes))
+		c.Proposal.Sign = sigFor(sponsor, c.Proposal.Data(), ssig, len(votes), 0)
 		ph := c.Proposal.Hash()
 		other := ph
 		other[0] ^= 0xff
+		seen := map[int]int{}
 		for i, v := range votes {
 			pv := payload.DPOSProposalVote{ProposalHash: ph, Signer: pubOf(v.signer), Accept: v.accept}
 			if !v.hashOk {
@@ -244,7 +247,8 @@ func exec(t []string) string {
 			if v.signer >= malformedBase && v.sigOk {
 				panic("harness: malformed signer cannot have a valid signature")
 			}
-			pv.Sign = sigFor(v.signer, pv.Data(), v.sigOk, i)
+			pv.Sign = sigFor(v.signer, pv.Data(), v.sigOk, i, seen[v.signer])
+			seen[v.signer]++
 			c.Votes = append(c.Votes, pv)
 		}
 		return sanityName(blockchain.ConfirmSanityCheck(&c)) + " " + contextName(blockchain.ConfirmContextCheck(&c))
